@@ -277,6 +277,9 @@ const (
 
 func run(r *ev.Run) int {
 	initAll()
+	for _, d := range dropPanickingSeeds() {
+		r.Violate(ev.Violation{Engine: "decmc", Key: "c16 valid seed panics " + d, What: "[panic] the valid seed " + d + " (decoding / validating a well-formed input panics)", Artefact: map[string]any{"seed_panics": d}})
+	}
 	digest := seedDigest()
 	thorough := r.Thorough()
 	if r.Deadline.IsZero() {
